@@ -8,6 +8,7 @@ from ..core import (
     short,
     dotted,
     is_self_attr,
+    block_raises,
     walk_local,
     calls_in,
 )
@@ -260,6 +261,28 @@ def r4_2(prog, rep):
             okc = r1 is not None and r1 == r2 and a1 in (norm(V), "self.levels") and a2 in (norm(V), "self.levels")
     obl(rep, f, cm[0][4] if cm else f.node, "R4.2", okc, "box: the contrast codes the same `categories` list", str([x[1][:80] for x in cm]))
     obl(rep, f, val[0][4] if val else f.node, "R4.2", okv, "box: rows selected by the recoded data's codes", nontrivial=False)
+    # box: codes are taken with the declared levels as categories - a value outside them gets code -1 and `matrix[codes]` then
+    # silently reads the LAST row: the levels setter must refuse level lists that do not cover the data
+    ls = prog.classes.get("formulae.categorical.CategoricalBox")
+    setter = ls.setters.get("levels") if ls is not None else None
+    if setter is None:
+        raise AnalysisError("R4.2: CategoricalBox.levels setter not found")
+    vp = setter.params[1]
+    covers = {f"set({vp}) != set(self.data)", f"set(self.data) != set({vp})", f"not set(self.data) <= set({vp})", f"not set(self.data).issubset({vp})",
+              f"not set(self.data).issubset(set({vp}))", f"set(self.data) - set({vp})", f"set(self.data).difference({vp})", f"not set({vp}) >= set(self.data)",
+              f"not set({vp}).issuperset(self.data)", f"not set({vp}).issuperset(set(self.data))"}
+    guards_ = []
+    for i_ in walk_local(setter.node):
+        if isinstance(i_, ast.If) and block_raises(i_.body):
+            parts_ = i_.test.values if isinstance(i_.test, ast.BoolOp) and isinstance(i_.test.op, ast.And) else [i_.test]
+            if any(unparse(p_) in covers for p_ in parts_) and all(unparse(p_) in covers or unparse(p_) == f"{vp} is not None" for p_ in parts_):
+                guards_.append(i_)
+    stores_ = [s_ for s_ in walk_local(setter.node) if isinstance(s_, ast.Assign) and is_self_attr(s_.targets[0], "_levels")]
+    cst = cfg_of(setter)
+    okb = len(guards_) >= 1 and len(stores_) == 1 and cst.dominates(cst.node_of(guards_[0]), cst.node_of(stores_[0]))
+    obl(rep, setter, guards_[0] if guards_ else setter.node, "R4.2", okb,
+        "box: declared levels that do not cover the values of the data are refused before they are stored", "",
+        "the levels setter accepts a level list that misses observed values: those rows get code -1 and are coded as the LAST level")
     for q in ("terms.variable.Variable.labels", "terms.call.Call.labels"):
         f = prog.fn(q)
         comps = [n for n in ast.walk(f.node) if isinstance(n, ast.ListComp) and unparse(n.generators[0].iter) == "self.contrast_matrix.labels"]
